@@ -30,6 +30,7 @@ const prefixDepth = 3
 func newSeqRef(p params) seqRef {
 	var s seqRef
 	s.trip, s.reset, s.cap = int32(p.Trip), int32(p.Reset), int32(p.Cap)
+	s.now = clockBase
 	return s
 }
 
